@@ -822,6 +822,16 @@ def get_mttkrp_factors(
 
     assert len(U) == ndims, "List of factor matrices is the wrong length"
 
+    if not 0 <= n < ndims:
+        raise ValueError(f"Mode must be in [0, {ndims}) but received {n}")
+    # The factor of mode n is skipped; all the others enter one Khatri-Rao product
+    num_columns = {U[i].shape[1] for i in range(ndims) if i != n}
+    if len(num_columns) > 1:
+        raise ValueError(
+            "All factor matrices must have the same number of columns but received "
+            f"{sorted(num_columns)}"
+        )
+
     return U
 
 
